@@ -18,7 +18,8 @@ Record elem_src := mkElem {
   s_min0 : Z;       (* min_neutron_shift given in the literal (0 when omitted) *)
   s_max0 : Z;       (* max_neutron_shift given in the literal (0 when omitted) *)
   s_indexed : bool; (* index_isotopes() is called before table.add *)
-  s_isos : list iso_src }.  (* insert statements, in source order *)
+  s_isos : list iso_src;    (* insert statements before index_isotopes(), in source order *)
+  s_late : list iso_src }.  (* insert statements after it (they do not take part in the min/max shifts) *)
 
 (* data/nist_mass.json: value = num / 10^k, exact *)
 Record nist_iso := mkNistIso {
